@@ -295,6 +295,7 @@ func chanLenCap(addr uintptr) (int, int) {
 // Run executes body as the main thread under strategy st and returns the result.
 func Run(cfg Config, st Strategy, body func()) *Result {
 	executionGen.Add(1)
+	splitCommit.Store(false)
 	if cfg.Horizon == 0 {
 		cfg.Horizon = 20000
 	}
